@@ -377,6 +377,14 @@ def str_strip (s : Val) : Val :=
   match s with | str s => ofL (PyFloat.pyStrip s.toList) | _ => err
 def str_lower (s : Val) : Val :=
   match s with | str s => ofL (PyFloat.lower s.toList) | _ => err
+/-- `str.upper()` on ASCII -/
+def upperAscii (c : Char) : Char :=
+  if 97 ≤ c.toNat && c.toNat ≤ 122 then Char.ofNat (c.toNat - 32) else c
+def str_upper (s : Val) : Val :=
+  match s with | str s => ofL (s.toList.map upperAscii) | _ => err
+/-- `reversed(seq)` of a list/tuple, as the sequence it iterates -/
+def reversed_ (a : Val) : Val :=
+  match a with | tup l => tup l.reverse | _ => err
 /-- `s.split()` -/
 def str_split (s : Val) : Val :=
   match s with | str s => tup ((PyFloat.pySplit s.toList).map ofL) | _ => err
